@@ -77,6 +77,7 @@ class Profile:
         self.float_props = True
         self.nasty_docs = False
         self.sdk_safe = False  # avoid shapes on which the Python generator crashes
+        self.mistype = False  # add exactly one invariant with one typing obligation flipped
         for key, value in kw.items():
             if not hasattr(self, key):
                 raise AttributeError(key)
@@ -171,6 +172,7 @@ class Model:
         self.consts: List[GConst] = []
         self.text = ""
         self.features: Dict[str, int] = {}
+        self.mistyped: List[Tuple[str, str, str]] = []
 
     def feature(self, name: str) -> None:
         self.features[name] = self.features.get(name, 0) + 1
@@ -238,6 +240,8 @@ class Generator:
         if self.p.sdk_safe:
             self.break_required_cycles()
         self.gen_class_invariants()
+        if self.p.mistype:
+            self.add_mistyped_invariant()
         self.fix_model_types()
         self.m.text = self.render()
         return self.m
@@ -631,6 +635,120 @@ class Generator:
                     )
                     self.m.feature("impl-specific-method")
 
+    # -- mistyped mode (C07) ---------------------------------------------------------
+    def add_mistyped_invariant(self) -> None:
+        """Add one invariant in which exactly one typing obligation is flipped."""
+        rng = self.rng
+        self.m.mistyped = []
+        classes = [c for c in self.m.classes if c.all_props]
+        rng.shuffle(classes)
+        for cls in classes:
+            made = self.mistyped_expr(cls)
+            if made is not None:
+                expr, tag = made
+                cls.invariants.append((expr, self.description("mistyped")))
+                self.m.mistyped.append((cls.name, expr, tag))
+                self.m.feature("mistyped/" + tag)
+                return
+
+    def mistyped_expr(self, cls: GClass) -> Optional[Tuple[str, str]]:
+        rng = self.rng
+        props = cls.all_props
+        optionals = [p for p in props if p.type.kind == "optional"]
+        required = [p for p in props if p.type.kind != "optional"]
+
+        def prim_of(t: T) -> Optional[str]:
+            if t.kind == "prim":
+                return t.name
+            if t.kind == "cprim":
+                return next(c.prim for c in self.m.cprims if c.name == t.name)
+            return None
+
+        options = []
+        if optionals:
+            options += ["unguarded", "unguarded", "wrong-branch", "guard-negated", "or-instead-of-and"]
+        if len(optionals) >= 2:
+            options += ["wrong-guard", "narrowing-after-or"]
+        cls_props = [p for p in props if p.type.kind == "cls" or (p.type.kind == "optional" and p.type.inner.kind == "cls")]
+        list_cls_props = [
+            p for p in props
+            if (p.type.kind == "list" and p.type.inner.kind == "cls")
+        ]
+        if cls_props:
+            options += ["nested-optional-member"]
+        if list_cls_props:
+            options += ["optional-member-in-loop"]
+        if required:
+            options += ["kind-mismatch", "kind-mismatch"]
+        if not options:
+            return None
+        choice = rng.choice(options)
+        depth = 1
+        if choice == "unguarded":
+            p = rng.choice(optionals)
+            return self.atom(f"self.{p.name}", p.type.inner, depth), choice
+        if choice == "wrong-branch":
+            p = rng.choice(optionals)
+            return f"({p_src(p)} is None) and {self.paren(self.atom(p_src(p), p.type.inner, depth))}", choice
+        if choice == "guard-negated":
+            p = rng.choice(optionals)
+            return f"not ({p_src(p)} is None) or {self.paren('True == True')} and ({p_src(p)} is None or True == True) and (({p_src(p)} is not None) or {self.paren(self.atom(p_src(p), p.type.inner, depth))})", choice
+        if choice == "or-instead-of-and":
+            p = rng.choice(optionals)
+            return f"({p_src(p)} is not None) or {self.paren(self.atom(p_src(p), p.type.inner, depth))}", choice
+        if choice == "wrong-guard":
+            p, q = rng.sample(optionals, 2)
+            return f"not ({p_src(q)} is not None) or {self.paren(self.atom(p_src(p), p.type.inner, depth))}", choice
+        if choice == "narrowing-after-or":
+            p, q = rng.sample(optionals, 2)
+            return f"(({p_src(p)} is not None) or ({p_src(q)} is not None)) and {self.paren(self.atom(p_src(p), p.type.inner, depth))}", choice
+        if choice == "nested-optional-member":
+            p = rng.choice(cls_props)
+            inner_t = p.type.inner if p.type.kind == "optional" else p.type
+            target = self.by_name(inner_t.name)
+            inner_optionals = [q for q in (target.all_props or []) if q.type.kind == "optional"]
+            if not inner_optionals:
+                return None
+            q = rng.choice(inner_optionals)
+            body = self.atom(f"self.{p.name}.{q.name}", q.type.inner, 0)
+            if p.type.kind == "optional":
+                return f"not (self.{p.name} is not None) or {self.paren(body)}", choice
+            return body, choice
+        if choice == "optional-member-in-loop":
+            p = rng.choice(list_cls_props)
+            target = self.by_name(p.type.inner.name)
+            inner_optionals = [q for q in (target.all_props or []) if q.type.kind == "optional"]
+            if not inner_optionals:
+                return None
+            q = rng.choice(inner_optionals)
+            quant = rng.choice(["all", "any"])
+            return f"{quant}({self.atom(f'x.{q.name}', q.type.inner, 0)} for x in self.{p.name})", choice
+        # kind mismatches: one operand of the wrong kind
+        p = rng.choice(required)
+        e = f"self.{p.name}"
+        prim = prim_of(p.type)
+        variants = []
+        if prim in ("int", "float", "bool"):
+            variants += [(f"len({e}) > 0", "len-of-number"), (f"{e}[0] == 1", "index-on-number"),
+                         (f'{e} == "text"', "number-eq-str"), (f'{e} < "a"', "number-lt-str")]
+            pats = [f for f in self.m.funcs if f.kind == "pattern"]
+            if pats:
+                variants.append((f"{rng.choice(pats).name}({e})", "pattern-call-on-number"))
+        if prim in ("str", "bytearray"):
+            variants += [(f"{e} < 5", "text-lt-int"), (f"{e} > 1.5", "text-gt-float"),
+                         (f"{e}.foo == 1", "member-of-primitive"), (f"not {e}", "not-on-text"),
+                         (f"{e} and True == True", "and-on-text"), (f"{e}", "non-boolean-body")]
+        if p.type.kind == "enum":
+            variants += [(f'{e} == "text"', "enum-eq-str"), (f"len({e}) > 1", "len-of-enum"), (f"{e} < 3", "enum-lt-int")]
+        if p.type.kind == "list":
+            variants += [(f"{e} > 3", "list-gt-int"), (f"{e}.size > 3", "member-of-list"), (f'{e} == "x"', "list-eq-str")]
+        if p.type.kind == "cls":
+            variants += [(f"len({e}) > 0", "len-of-instance"), (f"{e} > 2", "instance-gt-int"), (f"{e}[0] == 1", "index-on-instance")]
+        if not variants:
+            return None
+        expr, sub = rng.choice(variants)
+        return expr, f"kind-mismatch/{sub}"
+
     def break_required_cycles(self) -> None:
         """Make required class-typed properties optional until every concrete class
         can be instantiated finitely."""
@@ -1010,6 +1128,10 @@ class Generator:
         if not body:
             body.append("        pass")
         return lines + body + [""]
+
+
+def p_src(p: "GProp") -> str:
+    return f"self.{p.name}"
 
 
 RESERVED = {
